@@ -6,6 +6,7 @@ text, every run, every number of completed invocations and every environment
 of ReBench's own process.
 -/
 import RB.Proofs.Lemmas.Cmdline
+import RB.Proofs.Lemmas.CmdlineStrip
 
 namespace RB.Cmdline
 
@@ -39,15 +40,18 @@ theorem c03_placeholder_values (r : Run) (k : Nat) :
 
 /-- The command of the invocation after `c` recorded ones: for every template
 that is the written form of literal text, `%%` and placeholders, the process
-receives the words of (literal text, `%`, the run's values with invocation
-number `c + 1`), each with its leading `~` expanded; the string handed to the
-shell is that text `~`-expanded and quoted by `expand_user`. -/
+receives the words of its gauge adapter's wrapper (none for the default
+`acquire_command`; `/usr/bin/time -p` or `<time> -f <format>` for Time;
+`perf <record_args>` for a profile run) followed by the words of (literal text,
+`%`, the run's values with invocation number `c + 1`), each with its leading `~`
+expanded; the string handed to the shell is the adapter's prefix followed,
+verbatim, by that text `~`-expanded and quoted by `expand_user`. -/
 theorem c03_command_exact (w : World) (r : Run) (c : Nat) (l : Launch) (ts : List Tok)
     (hwf : ∀ t ∈ ts, t.WF) (ht : template w.cwd r = unparse ts)
     (h : launch w r c = .ok l) :
     ∃ s, render (envAll r (c + 1)) ts = some s ∧
-      l.argv = (words (strip s)).map (expandWord w) ∧
-      l.text = expandUserLine w true (strip s) := by
+      l.argv = wrapperArgv r.adapter ++ (words (strip s)).map (expandWord w) ∧
+      l.text = acquire r.adapter (expandUserLine w true (strip s)) := by
   have hf := c03_fmt_unparse (envAll r (c + 1)) ts hwf
   simp only [launch, nextText, direct, ht, hf] at h
   cases hr : render (envAll r (c + 1)) ts with
@@ -80,14 +84,69 @@ theorem c03_command_exact_all (w : World) (r : Run) (c : Nat) (l : Launch)
     (h : launch w r c = .ok l) :
     ∃ ts s, (∀ t ∈ ts, t.WF) ∧ template w.cwd r = unparse ts ∧
       render (envAll r (c + 1)) ts = some s ∧
-      l.argv = (words (strip s)).map (expandWord w) ∧
-      l.text = expandUserLine w true (strip s) := by
+      l.argv = wrapperArgv r.adapter ++ (words (strip s)).map (expandWord w) ∧
+      l.text = acquire r.adapter (expandUserLine w true (strip s)) := by
   cases hp : parse (template w.cwd r) with
   | none => simp [launch, nextText, direct, fmt, hp] at h
   | some ts =>
     obtain ⟨ht, hwf⟩ := parse_sound _ ts hp
     obtain ⟨s, h1, h2, h3⟩ := c03_command_exact w r c l ts hwf ht h
     exact ⟨ts, s, hwf, ht, h1, h2, h3⟩
+
+/-- what each gauge adapter puts in front of the command — the command itself follows
+verbatim: nothing for the default `acquire_command` (RebenchLog, TimeManual, custom adapters
+that inherit it), `/usr/bin/time -p ` or `<bin> -f <format> ` for Time, `perf <record_args> `
+for a profile run -/
+def adapterPrefix : Adapter → Str
+  | .plain => []
+  | .time false _ => usrBinTime ++ [' ', '-', 'p', ' ']
+  | .time true bin => bin ++ [' ', '-', 'f', ' '] ++ timeFormat ++ [' ']
+  | .perf c ra _ => c ++ [' '] ++ ra ++ [' ']
+
+theorem c03_acquire_suffix (a : Adapter) (cmd : Str) :
+    acquire a cmd = adapterPrefix a ++ cmd ∧ acquire .plain cmd = cmd := by
+  refine ⟨?_, rfl⟩
+  cases a with
+  | plain => rfl
+  | time f b => cases f <;> simp [acquire, adapterPrefix, List.append_assoc]
+  | perf c ra rp => simp [acquire, adapterPrefix, List.append_assoc]
+
+/-- the words of the wrapper are the words of that prefix (for `time -f` the format is one
+quoted word, which the shell hands over without its quotes) -/
+theorem c03_wrapper_words (a : Adapter) :
+    (∀ f b, a = .time f b → f = false → wrapperArgv a = words (adapterPrefix a)) ∧
+    (∀ c ra rp, a = .perf c ra rp → wrapperArgv a = words (c ++ [' '] ++ ra)) ∧
+    (a = .plain → wrapperArgv a = []) ∧
+    (∀ b, a = .time true b → wrapperArgv a = [b, ['-', 'f'], timeFormatArg] ∧
+       timeFormat = ['"'] ++ timeFormatArg ++ ['"']) := by
+  refine ⟨?_, ?_, ?_, ?_⟩
+  · rintro f b rfl rfl; simp only [wrapperArgv, adapterPrefix]; decide
+  · rintro c ra rp rfl; rfl
+  · rintro rfl; rfl
+  · rintro b rfl; exact ⟨rfl, by decide⟩
+
+/-- `TimeAdapter._check_which_time_command_is_available` as a decision table: the formatted
+variant is used iff `/usr/bin/time -f …` exits 0, or it exits 1 / cannot be started and
+`gtime -f …` exits 0 — and only in the latter case the binary is `gtime` -/
+theorem c03_time_decision (rc1 rc2 : Option Int) :
+    ((timeDecision rc1 rc2).1 = true ↔
+      rc1 = some 0 ∨ ((rc1 = some 1 ∨ rc1 = none) ∧ rc2 = some 0)) ∧
+    ((timeDecision rc1 rc2).2 = gtimeBin ↔ ((rc1 = some 1 ∨ rc1 = none) ∧ rc2 = some 0)) ∧
+    ((timeDecision rc1 rc2).2 = gtimeBin ∨ (timeDecision rc1 rc2).2 = usrBinTime) := by
+  have hne : usrBinTime ≠ gtimeBin := by decide
+  unfold timeDecision
+  cases rc1 with
+  | none =>
+    cases rc2 with
+    | none => simp [hne]
+    | some b => by_cases hb : b = 0 <;> simp [hb, hne]
+  | some a =>
+    by_cases ha : a = 1
+    · subst ha
+      cases rc2 with
+      | none => simp [hne]
+      | some b => by_cases hb : b = 0 <;> simp [hb, hne]
+    · by_cases h0 : a = 0 <;> simp [ha, h0, hne]
 
 /-- any other use of `%` is a format error: no process is started -/
 theorem c03_malformed_rejected (w : World) (r : Run) (c : Nat)
@@ -116,7 +175,7 @@ def PctFree (r : Run) (t : Str) : Prop :=
 theorem c03_two_phase_full_fails :
     ¬ ∀ (r : Run) (k : Nat) (t : Str), twoPhaseFmt r k t = directFmt r k t := by
   intro h
-  have := h ⟨[], .none, .none, .none, .none, [], [], .none, .none, none, [], none, [], none, false, none, [], 1⟩
+  have := h ⟨[], .none, .none, .none, .none, [], [], .none, .none, none, [], none, [], none, false, none, [], 1, .plain⟩
     1 ['%', '%']
   revert this
   decide
@@ -140,7 +199,7 @@ theorem c03_two_phase_eq_direct_partial (r : Run) (k : Nat) (t : Str) (h : PctFr
 
 -- non-vacuity: a run and a template with placeholders that satisfy `PctFree`
 example : PctFree ⟨['B'], .int 4, .str ['x'], .none, .none, ['E'], ['S'], .int 1, .none, none,
-    ['e'], none, [], none, false, none, [], 3⟩ ['h', ' ', '%', '(', 'c', 'o', 'r', 'e', 's', ')', 's'] := by
+    ['e'], none, [], none, false, none, [], 3, .plain⟩ ['h', ' ', '%', '(', 'c', 'o', 'r', 'e', 's', ')', 's'] := by
   constructor
   · intro ts h
     have : ts = [.lit 'h', .lit ' ', .ph kCores] := by
@@ -156,6 +215,63 @@ example : PctFree ⟨['B'], .int 4, .str ['x'], .none, .none, ['E'], ['S'], .int
       | (cases hl; rename_i hk; exact absurd hk.symm hn)
       | cases hl
 
+/-! ### … with the `.strip()` of `_construct_cmdline` in between
+
+`RunId.cmdline()` is `(template % env1).strip()`; the pinned tree formatted *that* a second
+time, the repaired tree strips the one-step expansion.  Leading / trailing blanks do occur
+(`command: Harness %(input)s` with no input size, an `extra_args` ending in a blank), so the
+`strip` is not vacuous.  It commutes with the second phase because the invocation number is
+a non-empty string of digits (`fmt_env2_strip`). -/
+
+/-- the identity string, completed with the invocation number, is the command that is
+started — for `PctFree` configurations, blanks at either end included -/
+theorem c03_two_phase_strip_partial (cwd : Str) (r : Run) (k : Nat)
+    (h : PctFree r (template cwd r)) :
+    twoPhase cwd r k = (direct cwd r k).map some := by
+  have hfmt := c03_two_phase_eq_direct_partial r k (template cwd r) h
+  unfold twoPhaseFmt directFmt at hfmt
+  unfold twoPhase direct cmdline
+  cases h1 : fmt (env1 r) (template cwd r) with
+  | none =>
+    simp only [h1, Option.bind_none] at hfmt
+    simp [← hfmt]
+  | some s1 =>
+    simp only [h1, Option.bind_some] at hfmt
+    -- the one-step expansion succeeds as well: the dictionaries have the same keys
+    have hsome : ∃ y, fmt (envAll r k) (template cwd r) = some y := by
+      unfold fmt at h1 ⊢
+      cases hp : parse (template cwd r) with
+      | none => simp [hp] at h1
+      | some ts =>
+        simp only [hp, Option.bind_some] at h1 ⊢
+        have := render_isSome_inv r invPlaceholder (decimal k) ts
+        simp only [env1] at h1
+        rw [h1] at this
+        simp only [envAll]
+        cases hr : render (envWith r (decimal k)) ts with
+        | none => rw [hr] at this; cases this
+        | some y => exact ⟨y, rfl⟩
+    obtain ⟨y, hy⟩ := hsome
+    rw [hy] at hfmt
+    simp [hy, fmt_env2_strip k s1 y hfmt]
+
+/-- FULL STATEMENT (false of the two-phase mechanism):
+`∀ cwd r k, twoPhase cwd r k = (direct cwd r k).map some` — a command `100%%`: the second
+phase fails (`some none`: a traceback) where the one-step expansion gives `e 100%` -/
+theorem c03_two_phase_strip_full_fails :
+    ¬ ∀ (cwd : Str) (r : Run) (k : Nat), twoPhase cwd r k = (direct cwd r k).map some := by
+  intro h
+  have := h [] ⟨[], .none, .none, .none, .none, [], [], .none, .none, none, ['e'], none,
+    ['1', '0', '0', '%', '%'], none, false, none, [], 1, .plain⟩ 1
+  revert this
+  decide
+
+-- the strip matters: an empty input size leaves a trailing blank in the expansion
+example : fmt (env1 ⟨['B'], .none, .none, .none, .none, [], [], .none, .none, none, ['e'], none,
+    ['h', ' ', '%', '(', 'i', 'n', 'p', 'u', 't', ')', 's'], none, false, none, [], 1, .plain⟩)
+    ['e', ' ', 'h', ' ', '%', '(', 'i', 'n', 'p', 'u', 't', ')', 's'] = some ['e', ' ', 'h', ' '] := by
+  decide
+
 /-! ## "that run's value" for `warmup` when no level configures it
 
 docs/config.md gives `0` as the default of `warmup`; the implementation hands
@@ -169,7 +285,7 @@ def docWarmup : Val → Str
 theorem c03_documented_values_full_fails :
     ¬ ∀ (r : Run) (k : Nat), lookup (envAll r k) kWarmup = some (docWarmup r.warmup) := by
   intro h
-  have := h ⟨[], .none, .none, .none, .none, [], [], .none, .none, none, [], none, [], none, false, none, [], 1⟩ 1
+  have := h ⟨[], .none, .none, .none, .none, [], [], .none, .none, none, [], none, [], none, false, none, [], 1, .plain⟩ 1
   revert this
   decide
 
@@ -226,6 +342,11 @@ def startNums : List Event → List Nat
   | .start _ n _ :: es => n :: startNums es
   | _ :: es => startNums es
 
+theorem startNums_report (r : Run) (id n : Nat) (l : Launch) (es : List Event) :
+    startNums (reportEvents r id n l ++ es) = startNums es := by
+  unfold reportEvents
+  split <;> simp [startNums]
+
 /-- The `j`-th process start of a run (counted from 0 within a session that
 found `c` recorded invocations) carries `c +` (successful starts before it) `+ 1`,
 whatever the outcomes are. -/
@@ -245,7 +366,8 @@ theorem c03_invocation_number (w : World) (r : Run) (id : Nat)
       | zero => simp [startNums]
       | succ j =>
         have := ih (c + 1) j (by simpa using hj)
-        simp only [startNums, List.getElem?_cons_succ, this, List.take_succ_cons, List.count_cons_self]
+        simp only [startNums, startNums_report, List.getElem?_cons_succ, this, List.take_succ_cons,
+          List.count_cons_self]
         congr 1; omega
     | fail =>
       simp only [runStarts, hl']
@@ -255,6 +377,16 @@ theorem c03_invocation_number (w : World) (r : Run) (id : Nat)
         have := ih c j (by simpa using hj)
         have hne : (Outcome.fail == Outcome.ok) = false := by decide
         simp only [startNums, List.getElem?_cons_succ, this, List.take_succ_cons, List.count_cons, hne]
+        simp
+    | failReport =>
+      simp only [runStarts, hl']
+      cases j with
+      | zero => simp [startNums]
+      | succ j =>
+        have := ih c j (by simpa using hj)
+        have hne : (Outcome.failReport == Outcome.ok) = false := by decide
+        simp only [startNums, startNums_report, List.getElem?_cons_succ, this, List.take_succ_cons,
+          List.count_cons, hne]
         simp
 
 /-- whether the command line of a run can be built does not depend on the
@@ -267,7 +399,7 @@ theorem c03_launch_total (w : World) (r : Run) (c : Nat) (h : ∃ l, launch w r 
 example : ∀ k, ∃ l, launch (World.mk ['/', 'w'] [(['H', 'O', 'M', 'E'], ['/', 'r'])] none [])
     ⟨['B'], .int 4, .none, .none, .none, ['E'], ['S'], .int 1, .none, some ['.'],
       ['e'], none, ['h', ' ', '%', '(', 'i', 'n', 'v', 'o', 'c', 'a', 't', 'i', 'o', 'n', ')', 's', ' ', '~', '/', 'x'],
-      none, false, none, [(['A'], ['~'])], 3⟩ k = .ok l :=
+      none, false, none, [(['A'], ['~'])], 3, .time true gtimeBin⟩ k = .ok l :=
   c03_launch_total _ _ 0 (Res.exists_of_isOk _ (by decide +kernel))
 
 /-- the number of recorded invocations after the session: `c +` successes;
@@ -285,6 +417,9 @@ theorem c03_completed_after (w : World) (r : Run) (id : Nat)
     | fail =>
       have hne : (Outcome.fail == Outcome.ok) = false := by decide
       simp only [runStarts, hl', ih c, List.count_cons, hne]; simp
+    | failReport =>
+      have hne : (Outcome.failReport == Outcome.ok) = false := by decide
+      simp only [runStarts, hl', ih c, List.count_cons, hne]; simp
 
 /-- a session resumed from the recorded count continues the numbering: running
 `o₁` and then, in a new session, `o₂` gives the starts of running `o₁ ++ o₂` -/
@@ -298,10 +433,18 @@ theorem c03_resume (w : World) (r : Run) (id : Nat)
     intro c
     obtain ⟨l, hl'⟩ := hl c
     cases o with
-    | ok => simp only [List.cons_append, runStarts, hl', ih (c + 1)]
+    | ok => simp only [List.cons_append, runStarts, hl', ih (c + 1), List.append_assoc]
     | fail => simp only [List.cons_append, runStarts, hl', ih c]
+    | failReport => simp only [List.cons_append, runStarts, hl', ih c, List.append_assoc]
 
 /-- every start event carries the launch record of its own number -/
+theorem not_start_of_mem_report (r : Run) (id n : Nat) (l0 : Launch) (e : Event)
+    (he : e ∈ reportEvents r id n l0) (i k : Nat) (l : Launch) : e ≠ .start i k l := by
+  unfold reportEvents at he
+  split at he
+  · simp at he; subst he; intro h; cases h
+  · simp at he
+
 theorem c03_start_is_launch (w : World) (r : Run) (id : Nat) (outs : List Outcome) :
     ∀ c, ∀ e ∈ (runStarts w r id c outs).1, ∀ i n l, e = .start i n l →
       i = id ∧ 1 ≤ n ∧ launch w r (n - 1) = .ok l := by
@@ -315,9 +458,10 @@ theorem c03_start_is_launch (w : World) (r : Run) (id : Nat) (outs : List Outcom
       simp only [hL] at he
       cases o with
       | ok =>
-        simp only [List.mem_cons] at he
-        rcases he with rfl | rfl | he
+        simp only [List.mem_cons, List.mem_append] at he
+        rcases he with rfl | he | rfl | he
         · cases hE; exact ⟨rfl, by omega, by simpa using hL⟩
+        · exact absurd hE (not_start_of_mem_report r id _ l0 e he i n l)
         · cases hE
         · exact ih (c + 1) e he i n l hE
       | fail =>
@@ -325,6 +469,63 @@ theorem c03_start_is_launch (w : World) (r : Run) (id : Nat) (outs : List Outcom
         rcases he with rfl | he
         · cases hE; exact ⟨rfl, by omega, by simpa using hL⟩
         · exact ih c e he i n l hE
+      | failReport =>
+        simp only [List.mem_cons, List.mem_append] at he
+        rcases he with rfl | he | he
+        · cases hE; exact ⟨rfl, by omega, by simpa using hL⟩
+        · exact absurd hE (not_start_of_mem_report r id _ l0 e he i n l)
+        · exact ih c e he i n l hE
+    | uiError => simp [hL] at he; subst he; cases hE
+    | crash => simp [hL] at he; subst he; cases hE
+
+/-- the report step of a profile run: it exists only for the perf adapter, directly
+belongs to a started invocation, and runs `command report_args` in the working directory
+and the environment of that invocation's benchmark process -/
+theorem c03_report_step (w : World) (r : Run) (id : Nat) (outs : List Outcome) :
+    ∀ c, ∀ e ∈ (runStarts w r id c outs).1, ∀ i n rl, e = .report i n rl →
+      ∃ cmd ra rp l, r.adapter = .perf cmd ra rp ∧ i = id ∧ launch w r (n - 1) = .ok l ∧
+        rl.text = cmd ++ [' '] ++ rp ∧ rl.cwd = l.cwd ∧ rl.env = l.env := by
+  have key : ∀ (n : Nat) (l0 : Launch) (e : Event), e ∈ reportEvents r id n l0 → ∀ i k rl,
+      e = .report i k rl → ∃ cmd ra rp, r.adapter = .perf cmd ra rp ∧ i = id ∧ k = n ∧
+        rl.text = cmd ++ [' '] ++ rp ∧ rl.cwd = l0.cwd ∧ rl.env = l0.env := by
+    intro n l0 e he i k rl hE
+    unfold reportEvents at he
+    split at he
+    · rename_i cmd ra rp hA
+      simp at he; subst he; cases hE
+      exact ⟨cmd, ra, rp, hA, rfl, rfl, by simp, rfl, rfl⟩
+    · simp at he
+  induction outs with
+  | nil => intro c e he; simp [runStarts] at he
+  | cons o os ih =>
+    intro c e he i n rl hE
+    simp only [runStarts] at he
+    cases hL : launch w r c with
+    | ok l0 =>
+      simp only [hL] at he
+      cases o with
+      | ok =>
+        simp only [List.mem_cons, List.mem_append] at he
+        rcases he with rfl | he | rfl | he
+        · cases hE
+        · obtain ⟨cmd, ra, rp, h1, h2, h3, h4, h5, h6⟩ := key _ l0 e he i n rl hE
+          subst h3
+          exact ⟨cmd, ra, rp, l0, h1, h2, by simpa using hL, h4, h5, h6⟩
+        · cases hE
+        · exact ih (c + 1) e he i n rl hE
+      | fail =>
+        simp only [List.mem_cons] at he
+        rcases he with rfl | he
+        · cases hE
+        · exact ih c e he i n rl hE
+      | failReport =>
+        simp only [List.mem_cons, List.mem_append] at he
+        rcases he with rfl | he | he
+        · cases hE
+        · obtain ⟨cmd, ra, rp, h1, h2, h3, h4, h5, h6⟩ := key _ l0 e he i n rl hE
+          subst h3
+          exact ⟨cmd, ra, rp, l0, h1, h2, by simpa using hL, h4, h5, h6⟩
+        · exact ih c e he i n rl hE
     | uiError => simp [hL] at he; subst he; cases hE
     | crash => simp [hL] at he; subst he; cases hE
 
